@@ -8,8 +8,6 @@ pub trait FromStr: Sized {
         ensures Self::from_str_rel(s@, r);
 }
 
-pub open spec fn has_prefix(s: Seq<char>, p: Seq<char>) -> bool { s.len() >= p.len() && s.subrange(0, p.len() as int) == p }
-
 /// `s.strip_prefix(p)` for a string pattern
 #[verifier::external_body]
 pub fn x_strip_prefix<'a>(s: &'a str, p: &str) -> (r: Option<&'a str>)
@@ -18,56 +16,6 @@ pub fn x_strip_prefix<'a>(s: &'a str, p: &str) -> (r: Option<&'a str>)
         None => !has_prefix(s@, p@),
     }
 { s.strip_prefix(p) }
-
-/// right-to-left split at the LAST occurrence of `c`: (left part, right part if `c` occurs)
-pub open spec fn rsplit_at(s: Seq<char>, c: char) -> (Seq<char>, Option<Seq<char>>) {
-    if last_index_of(s, c) < 0 { (s, None) }
-    else { (s.subrange(0, last_index_of(s, c)), Some(s.subrange(last_index_of(s, c) + 1, s.len() as int))) }
-}
-
-pub struct PhaseA { pub ty: Seq<char>, pub rest: Seq<char>, pub sub: Seq<char>, pub kv: KV }
-pub struct PhaseB { pub ns: Seq<char>, pub name: Seq<char>, pub version: Seq<char> }
-
-pub open spec fn dq_parse_err(d: DqErr) -> ParseError { match d { DqErr::Qualifier => ParseError::InvalidQualifier, DqErr::Escape => ParseError::InvalidEscape } }
-
-/// everything up to the type conversion: scheme, leading slashes, subpath after the last '#', qualifiers after the last '?',
-/// type up to the first '/', type syntax
-pub open spec fn phase_a(s: Seq<char>) -> Result<PhaseA, ParseError> {
-    if !has_prefix(s, "pkg:"@) { Err(ParseError::UnsupportedUrlScheme) } else {
-        let s1 = trim_start_spec(s.subrange("pkg:"@.len() as int, s.len() as int), '/');
-        let (s2, sub_raw) = rsplit_at(s1, '#');
-        let sub = match sub_raw { None => Some(Seq::<char>::empty()), Some(x) => sub_fold(split_spec(trim_spec(x, '/'), '/')) };
-        if sub is None { Err(ParseError::InvalidEscape) } else {
-            let (s3, q_raw) = rsplit_at(s2, '?');
-            let kv = match q_raw { None => Ok::<KV, DqErr>(Seq::<(Seq<char>, Seq<char>)>::empty()), Some(x) => dq_fold(split_spec(x, '&'), Seq::<(Seq<char>, Seq<char>)>::empty()) };
-            match kv {
-                Err(d) => Err(dq_parse_err(d)),
-                Ok(kvv) =>
-                    if s3.len() == 0 { Err(ParseError::MissingRequiredField(PurlField::PackageType)) }
-                    else if first_index_of(s3, '/') < 0 { Err(ParseError::MissingRequiredField(PurlField::Name)) }
-                    else {
-                        let ty = s3.subrange(0, first_index_of(s3, '/'));
-                        if !valid_type(ty) { Err(ParseError::InvalidPackageType) }
-                        else { Ok(PhaseA { ty, rest: s3.subrange(first_index_of(s3, '/') + 1, s3.len() as int), sub: sub->Some_0, kv: kvv }) }
-                    },
-            }
-        }
-    }
-}
-
-/// after the conversion: version after the last '@', namespace before the last '/', name
-pub open spec fn phase_b(rest: Seq<char>) -> Result<PhaseB, ParseError> {
-    let (r1, ver_raw) = rsplit_at(rest, '@');
-    let version = match ver_raw { None => Some(Seq::<char>::empty()), Some(x) => dec(x) };
-    if version is None { Err(ParseError::InvalidEscape) } else {
-        let (ns_raw, name_raw) = if last_index_of(r1, '/') < 0 { (None::<Seq<char>>, r1) }
-            else { (Some(r1.subrange(0, last_index_of(r1, '/'))), r1.subrange(last_index_of(r1, '/') + 1, r1.len() as int)) };
-        let ns = match ns_raw { None => Some(Seq::<char>::empty()), Some(x) => ns_fold(split_spec(trim_spec(x, '/'), '/')) };
-        if ns is None { Err(ParseError::InvalidEscape) }
-        else if dec(name_raw) is None { Err(ParseError::InvalidEscape) }
-        else { Ok(PhaseB { ns: ns->Some_0, name: dec(name_raw)->Some_0, version: version->Some_0 }) }
-    }
-}
 
 pub open spec fn parts_are(p: PurlParts, a: PhaseA, b: PhaseB) -> bool {
     p.namespace@ == b.ns && p.name@ == b.name && p.version@ == b.version && p.subpath@ == a.sub
